@@ -112,6 +112,15 @@ fn main() {
                 println!("{}", ir::rust_test(&j.program));
             }
         }
+        "dump" => {
+            // print the programs of a check's family whose text contains a substring (json lines)
+            let c = pos.first().cloned().unwrap_or_else(|| usage());
+            let pat = pos.get(1).cloned().unwrap_or_default();
+            let s = specs::spec(&c, &tier).unwrap_or_else(|| usage());
+            for j in s.jobs.iter().filter(|j| j.program.text().contains(&pat) || j.program.name.contains(&pat)) {
+                println!("{}", serde_json::to_string(&j.program).unwrap());
+            }
+        }
         "replay" => {
             let p = pos.first().cloned().unwrap_or_else(|| usage());
             std::process::exit(driver::replay(&p));
